@@ -19,6 +19,7 @@ import (
 )
 
 func init() {
+	verifRegister("VerifC04_Successive", VerifC04_Successive)
 	verifRegister("VerifC04_Shapes", VerifC04_Shapes)
 	verifRegister("VerifC04_Padding", VerifC04_Padding)
 	verifRegister("VerifC04_Types", VerifC04_Types)
@@ -463,6 +464,69 @@ func VerifC04_Wide() {
 	}
 	pad := verifParam("pad", 0, 1) * 4
 	c04Run(msm7, msgType, c04IDs(sh.nsat, 64, 2), c04IDs(sh.nsig, 32, 2), sh.mask, pad)
+}
+
+// c04Concrete: a message of the given shape with fixed field values.
+func c04Concrete(msm7 bool, msgType int, satIDs, sigIDs []uint, cellMask uint64) *c04Msg {
+	m := &c04Msg{msm7: msm7, msgType: msgType, satIDs: satIDs, sigIDs: sigIDs, station: 7, timestamp: 1000}
+	nsat, nsig := len(satIDs), len(sigIDs)
+	for i := 0; i < nsat; i++ {
+		m.sats = append(m.sats, c04Sat{id: satIDs[i], whole: uint(80 + i), frac: uint(5 + i)})
+	}
+	k := nsat*nsig - 1
+	for i := 0; i < nsat; i++ {
+		row := make([]bool, nsig)
+		for j := 0; j < nsig; j++ {
+			row[j] = (cellMask>>uint(k))&1 == 1
+			k--
+			if row[j] {
+				m.sigs = append(m.sigs, c04Sig{sat: uint(i), sigID: sigIDs[j], rng: 3 + i, phase: -2 - j, lock: 1, cnr: 2})
+			}
+		}
+		m.cells = append(m.cells, row)
+	}
+	return m
+}
+
+// A message decodes the same whatever was decoded before it.  A predecessor
+// with fixed field values is decoded first, then the subject with symbolic
+// field values; the pairs share the number of mask bits, the cell-mask value
+// or the shape, which is what a cache or a reused buffer between two
+// messages would key on.
+var c04Pairs = [][6]int{
+	// predecessor nsat, nsig, cell mask; subject nsat, nsig, cell mask
+	{2, 4, 0xcc, 4, 2, 0xcc},
+	{4, 2, 0xcc, 2, 4, 0xcc},
+	{4, 1, 0xf, 2, 2, 0xf},
+	{2, 2, 0xf, 4, 1, 0xf},
+	{1, 4, 0xf, 2, 2, 0xf},
+	{2, 2, 0xf, 2, 2, 0x9},
+	{2, 2, 0x9, 2, 2, 0xf},
+	{3, 2, 0x2d, 2, 3, 0x2d},
+	{2, 2, 0x6, 2, 2, 0x6},
+	{2, 0, 0, 0, 0, 0},
+	{3, 2, 0x3f, 1, 1, 0x1},
+}
+
+func VerifC04_Successive() {
+	verifOwnPanics()
+	pr := c04Pairs[verifParam("pair", 0, len(c04Pairs)-1)]
+	// the two messages are of the same kind or MSM4 before MSM7 and the reverse
+	kinds := [][2]bool{{false, false}, {true, true}, {false, true}, {true, false}}[verifParam("kinds", 0, 3)]
+	types := func(msm7 bool) int {
+		if msm7 {
+			return 1097
+		}
+		return 1094
+	}
+	before := c04Concrete(kinds[0], types(kinds[0]), c04IDs(pr[0], 64, 0), c04IDs(pr[1], 32, 0), uint64(pr[2]))
+	bf := c04Encode(before, 0)
+	if before.msm7 {
+		_, _ = msm7Message.GetMessage(bf, slog.LevelInfo)
+	} else {
+		_, _ = msm4Message.GetMessage(bf, slog.LevelInfo)
+	}
+	c04Run(kinds[1], types(kinds[1]), c04IDs(pr[3], 64, 0), c04IDs(pr[4], 32, 0), uint64(pr[5]), 0)
 }
 
 // Mask expansion on its own, for masks outside the shape family: eight
